@@ -106,6 +106,13 @@ def finding_matches(f, res, script):
         return any(o.get('budget', 0) >= 2 ** 63 for o in script['ops'])
     if pred == 'mmap_entry_over_file_size':
         return script['config'].get('backend') == 'mmap' and any(e['len'] + 256 > 1000 * 1024 * 1024 for o in script['ops'] for e in o.get('entries', []))
+    if pred == 'first_append_exceeds_initial_block_and_restart':
+        first = {}
+        for o in script['ops']:
+            if o['op'] in ('append', 'batch_append') and o.get('topic', 't') not in first:
+                first[o.get('topic', 't')] = o['entries'][0]['len']
+        restarts = any(o['op'] in ('reopen', 'restart_process') for o in script['ops'])
+        return restarts and any(v > 10485504 for v in first.values())
     if pred == 'any':
         return True
     return False
@@ -114,6 +121,7 @@ def finding_matches(f, res, script):
 def run(prop, tier, seed, jobs, oracles, budget_s, diff_scripts, bounds, extra_assumptions=(), cfg=None,
         max_replays=24, workers=None):
     rep = Report(prop, tier, seed)
+    runner.clear_replays(prop)
     rep.bounds = bounds
     rep.assumptions = list(envmodel.ASSUMPTIONS) + list(extra_assumptions)
     kinds = KINDS[prop] if isinstance(oracles, str) else oracles
@@ -139,7 +147,23 @@ def run(prop, tier, seed, jobs, oracles, budget_s, diff_scripts, bounds, extra_a
         for dj in djobs:
             rs = [r for r in agg['results'] if r['job'] == dj]
             if len(rs) != 1:
-                rep.inconclusive.append('MODEL-MISMATCH: concrete script %s gave %d interpreter paths' % (dj['skel'], len(rs)))
+                # the model is imprecise on this script (content-dependent behaviour): the real engine alone is judged
+                ops = rs[0]['ops'] if rs else None
+                if ops is None:
+                    rep.notes.append('fixed script %s: interpreter produced no complete path (imprecise); not replayed' % dj['skel'])
+                    continue
+                wit = {('size%d' % i): v for i, v in enumerate(dj['concrete']['sizes'])}
+                wit.update({('budget%d' % i): v for i, v in enumerate(dj['concrete']['budgets'])})
+                script = concretise(ops, wit, dict(backend=dj['backend'], consistency=dj['consistency']))
+                obs, e = replay.run_script(script)
+                rep.replays_run += 1
+                v = judge(script, obs, kinds) if not e else None
+                if v:
+                    script['property'] = prop
+                    path = runner.write_replay(prop, 'diff_%s' % dj['skel'].replace(',', '').replace(':', ''), script)
+                    rep.violation(path, 'fixed script %s sizes %s: %s' % (dj['skel'], dj['concrete']['sizes'], v[0][2]))
+                else:
+                    rep.notes.append('fixed script %s: %d interpreter paths (model imprecise here); the real engine satisfies the oracle' % (dj['skel'], len(rs)))
                 continue
             r = rs[0]
             wit = {('size%d' % i): v for i, v in enumerate(dj['concrete']['sizes'])}
